@@ -2,6 +2,7 @@
 mod common;
 mod refdual;
 mod spec;
+mod dynref;
 mod bspline;
 mod curvemodel;
 mod calmodel;
